@@ -411,6 +411,11 @@ def run(ctx):
     ctx.rule('C07.FANOUT', lambda: rule_fanout(ctx), 11)
     ctx.rule('C07.TOUCHED', lambda: rule_advance_touched(ctx) + c03.rule_touched(ctx, 'C07.TOUCHED'), 5)
     ctx.rule('C20', lambda: c20._run(ctx))
+    # the status is a hash over the confirmed history *in order*: the row-key layout / big-endian row id of History is its condition
+    from . import c01 as _c01s, c02 as _c02s
+    sch = ctx.rule('C07.SCHEMAS', lambda: _c01s.Schemas(ctx))
+    if sch is not None:
+        ctx.rule('C02.LAYOUT', lambda: _c02s.rule_layout(ctx, sch), 14)
 
 
 def rule_hsub_clamp(ctx, rule='C07.CLAMP'):
